@@ -380,6 +380,15 @@ CATALOGUE += [
      "mk = fn() -> fn(str) -> int? {\n stock = map[str, int] {\n  \"apple\": 3\n }\n return fn(k: str) -> int? {\n  stock[\"seen\"] = 1\n  return stock[k]\n }\n}\nrd = mk()\n" + T("rd(\"apple\")") + T("rd(\"seen\")")),
     ("alias_list_and_str_index",
      "type Row [int...]\nr: Row = [4, 5]\n" + T("r.len()")),
+    # round 6: a function-valued field reached through an alias-typed / optional / returned receiver; op-assignments
+    # that keep their kind; a byte next to another number
+    ("function_typed_field_called_through_alias_receiver",
+     "class Hh {\n cb: fn(int) -> int\n constructor(self, f: fn(int) -> int) {\n  self.cb = f\n }\n}\ntype HA Hh\nh: HA = Hh(fn(x: int) -> int {\n return x * 2\n})\n" + T("h.cb(4)")
+     + "ho: Hh? = Hh(fn(x: int) -> int {\n return x * 3\n})\nhh = get ho\n" + T("hh.cb(4)") + "mk = fn() -> Hh {\n return Hh(fn(x: int) -> int {\n  return x + 1\n })\n}\n" + T("(mk()).cb(1)")),
+    ("opassign_keeping_kind",
+     "af = 1.5\naf += 1\n" + T("af") + "ab = B5\nab *= 2\n" + T("ab") + "ai = 5\nyb = 0b1\nai -= yb\n" + T("ai") + "ay = 0b1\nay += 0b1\n" + T("ay") + "st = \"a\"\nst += 1\n" + T("st") + "st *= 2\n" + T("st")),
+    ("byte_with_numbers",
+     "yb = 0b11\n" + T("yb + 1") + T("1.5 * yb") + T("yb - yb") + T("B2 * yb") + T("\"a\" + yb") + T("yb + \"a\"") + T("yb < 4") + T("yb == 3")),
     # modify of a captured optional between nil and present
     ("modify_captured_optional_nil_to_present_and_back",
      "last: int? = nil\nnone: int? = nil\nseen = 0\nrec = fn(v: int) {\n modify last = v\n modify seen = seen + 1\n}\nclr = fn() {\n modify last = none\n}\n" + T("last == nil") + "rec(4)\n" + T("last") + T("get last")
